@@ -27,6 +27,12 @@ Theorem C55_vanished_is_not_error : forall ts,
   r_err (backup ts) = ENone /\ exit_code (r_err (backup ts)) = 0%N.
 Proof. exact vanished_is_not_error. Qed.
 
+(* A directory whose listing breaks off part-way (names so far plus an error) is reported and gives exit 3. *)
+Theorem C55_partial_listing_incomplete : forall ts id, some_target_exists ts ->
+  reached_ts ts id KDir ErrReaddirPartial ->
+  exit_code (r_err (backup ts)) = 3%N /\ In id (r_errors (backup ts)).
+Proof. exact partial_listing_incomplete. Qed.
+
 Theorem C55_no_source_is_fatal : forall ts, (forall t, In t ts -> t_exists t = false) ->
   backup ts = mkRes EFatal false [] [].
 Proof. exact no_source_is_fatal. Qed.
@@ -44,6 +50,7 @@ Print Assumptions C55_exit_spec.
 Print Assumptions C55_snapshot_contains_readable.
 Print Assumptions C55_errors_reported.
 Print Assumptions C55_vanished_is_not_error.
+Print Assumptions C55_partial_listing_incomplete.
 Print Assumptions C55_no_source_is_fatal.
 Print Assumptions C55_exit3_only_incomplete.
 Print Assumptions C55_oracle_sound.
